@@ -270,3 +270,39 @@ Fixpoint parse_rules (u : Z) (rs : list (list item)) (s : str) : option Z :=
   end.
 
 Definition dt_parse (u : Z) (s : str) : option Z := parse_rules u rules s.
+
+(* ------------------------------------------------------------------ additions of the C18 audit (YC) — additive only *)
+(* datetime.rs 29-41 `impl Debug for DateTime<U>`: "NaT", else strftime(None) *)
+Definition dt_debug (u x : Z) : res str := dt_format u fmt_default x.
+
+(* `{}` of an i64 / i32: minimal decimal digits, a leading '-' for negatives *)
+Definition render_int (v : Z) : str := if v <? 0 then 45 :: dec_digits 20 (- v) else dec_digits 20 v.
+
+(* time.rs 11 `#[derive(Debug)] pub struct Time(pub i64)`: "Time(<i64>)"; impl_time.rs 9-13 `Display for Time`
+   forwards to Debug *)
+Definition time_debug (t : Z) : str := [84; 105; 109; 101; 40] ++ render_int t ++ [41].
+Definition time_display (t : Z) : str := time_debug t.
+
+(* timedelta.rs 35 `#[derive(Debug)] pub struct TimeDelta { months, inner }` over chrono's derived Debug of
+   `TimeDelta { secs, nanos }` (secs = floor, 0 <= nanos < 10^9); `ns` is the total of `inner` in nanoseconds:
+   "TimeDelta { months: M, inner: TimeDelta { secs: S, nanos: N } }" — also what Cast<String> for TimeDelta returns *)
+Definition td_debug (months ns : Z) : str :=
+  [84; 105; 109; 101; 68; 101; 108; 116; 97; 32; 123; 32; 109; 111; 110; 116; 104; 115; 58; 32] ++ render_int months
+  ++ [44; 32; 105; 110; 110; 101; 114; 58; 32; 84; 105; 109; 101; 68; 101; 108; 116; 97; 32; 123; 32; 115; 101; 99; 115; 58; 32]
+  ++ render_int (ns / giga) ++ [44; 32; 110; 97; 110; 111; 115; 58; 32] ++ render_int (ns mod giga) ++ [32; 125; 32; 125].
+
+(* time.rs 108-121 `Time::parse(s, Some(fmt))`: NaiveTime::parse_from_str = the same chrono `parse` over the items, then
+   Parsed::to_naive_time; Time = num_seconds_from_midnight * 10^9 + nanosecond (a leap second's nanosecond is >= 10^9).
+   (`Time::parse(s, None)` = NaiveTime::from_str is not modelled.)                                                    *)
+Definition time_parse_with (items : list item) (s : str) : option Z :=
+  match parse_items items s parsed0 with
+  | None => None
+  | Some p => match to_naive_time p with
+              | Some (sod, nano) => Some (sod * giga + nano)
+              | None => None
+              end
+  end.
+Definition fmt_hms : list item := [IH; colon; IM; colon; IS].                  (* %H:%M:%S    *)
+Definition fmt_hms_f : list item := [IH; colon; IM; colon; IS; dot; If].       (* %H:%M:%S.%f *)
+Definition fmt_hms_compact : list item := [IH; IM; IS].                        (* %H%M%S      *)
+Definition fmt_hm : list item := [IH; colon; IM].                              (* %H:%M       *)
